@@ -713,6 +713,7 @@ func (r *Run) exec(op Op) error {
 			return r.failf("CompactOOOHead returned an error: %v", err)
 		}
 		r.M.OOOCompacted()
+		r.noteGC() // truncating the out-of-order head garbage-collects series left without data
 	case "cleantomb":
 		if len(r.Apps) > 0 {
 			return nil
